@@ -66,6 +66,18 @@ def make_items(tier, seed):
         items.append({"ob": "contract", "algo": algo_, "src": src, "cls": cls})
         items.append({"ob": "decode", "algo": algo_, "src": src})
         items.append({"ob": "endtoend", "algo": algo_, "src": src, "cls": cls})
+    # black boxes compiled with the fast optimizer that re-assign their own argument (the argument's
+    # name then also labels a scratch qubit): the wrapper must still act on the input qubits
+    fast_boxes = [
+        ("dj", "def f(k: bool) -> bool:\n    k = not k\n    return k\n", "balanced"),
+        ("dj", "def f(k: Qint[2]) -> bool:\n    k = k + 1\n    return k[0]\n", "balanced"),
+        ("dj", "def f(k: Qint[2]) -> bool:\n    k = k ^ 1\n    k = k + 1\n    return k[1] ^ k[0]\n", "any"),
+        ("bv", "def f(x: Qint[3]) -> bool:\n    x = x ^ 5\n    return x[0] ^ x[2] ^ True\n", "linear"),
+        ("simon", "def f(x: Qint[2]) -> Qint[2]:\n    x = x >> 1\n    return x\n", "2to1"),
+    ]
+    for algo_, src, cls in fast_boxes:
+        items.append({"ob": "contract", "algo": algo_, "src": src, "cls": cls, "opt": "fast"})
+        items.append({"ob": "endtoend", "algo": algo_, "src": src, "cls": cls, "opt": "fast"})
     return items
 
 
@@ -259,7 +271,12 @@ def check_item(spec):
     from qlasskit import qlassf
 
     try:
-        qf = qlassf(spec["src"], to_compile=True)
+        if spec.get("opt") == "fast":
+            from qlasskit.boolopt import fastOptimizer
+
+            qf = qlassf(spec["src"], to_compile=True, bool_optimizer=fastOptimizer)
+        else:
+            qf = qlassf(spec["src"], to_compile=True)
     except Exception as e:
         res.update(status="skip", note="black box does not compile: %s" % type(e).__name__)
         return st.into(res)
